@@ -26,6 +26,7 @@ KINDS = [
     ('nobind0', 'add', None),
     ('perr', 'perr', None),
     ('boom', 'boom', [5]),
+    ('boomt', 'boomt', [5]),       # a TypeError raised by the body itself (not by the call)
 ]
 INVALID_ELEMS = [1, {}, {'jsonrpc': '2.0', 'method': 1, 'id': 7}, {'jsonrpc': '2.0', 'method': 'ok', 'params': None, 'id': 8},
                  {'jsonrpc': '2.0', 'method': 'ok', 'params': 0}]
@@ -73,6 +74,14 @@ def gen_cases(ctx):
                     doc = [elem(fk if (fk and i == pos) else KINDS[0], ids[i]) for i in range(n)]
                     for disp in DISPS:
                         yield dict(part='b', disp=disp, mbs=None, doc=doc)
+    # (d) equal-valued arguments of different JSON types in one batch (1 / 1.0 / true, 0 / 0.0 / false, "1", nested): each element
+    #     must be executed with - and answered from - its OWN arguments
+    typed = [[1], [1.0], [True], [0], [0.0], [False], ['1'], [[1]], [[1.0]], [[True]], {'a': 1}, {'a': 1.0}, {'a': True}, [1, 0], [1.0, False]]
+    for n in range(1, ctx.pick(3, 3) + 1):
+        for seq in itertools.product(range(len(typed)), repeat=n):
+            doc = [elem(('t', 'ok', typed[t]), pos + 1) for pos, t in enumerate(seq)]
+            for disp in DISPS[:4]:
+                yield dict(part='d', disp=disp, mbs=None, doc=doc)
     # (c) max_batch_size at and around the length
     small = [('e', KINDS[0], 'call'), ('e', KINDS[0], 'notif'), ('e', KINDS[3], 'call'), ('e', KINDS[6], 'notif'),
              ('i', 1, None)]
